@@ -11,6 +11,7 @@ fn is_digit(b: u8) -> bool {
 #[kani::proof]
 #[kani::unwind(10)]
 #[kani::stub(verif_support::reexp::catch_unwind, verif_support::stub_cu)]
+#[kani::stub(crate::parameters::file_spec::TimestampCfg::get_timestamp, crate::parameters::file_spec::verif_harness::cut_get_timestamp)]
 fn c07_numbers_filter_kernel() {
     let b: [u8; 8] = kani::any();
     let len: usize = kani::any();
@@ -43,6 +44,7 @@ fn c07_numbers_filter_kernel() {
 #[kani::proof]
 #[kani::unwind(10)]
 #[kani::stub(verif_support::reexp::catch_unwind, verif_support::stub_cu)]
+#[kani::stub(crate::parameters::file_spec::TimestampCfg::get_timestamp, crate::parameters::file_spec::verif_harness::cut_get_timestamp)]
 fn c10_numbers_filter_multibyte() {
     let b: [u8; 6] = kani::any();
     let len: usize = kani::any();
@@ -62,6 +64,7 @@ fn c10_numbers_filter_multibyte() {
 #[kani::proof]
 #[kani::unwind(8)]
 #[kani::stub(verif_support::reexp::catch_unwind, verif_support::stub_cu)]
+#[kani::stub(crate::parameters::file_spec::TimestampCfg::get_timestamp, crate::parameters::file_spec::verif_harness::cut_get_timestamp)]
 fn c14_equals_filter_kernel() {
     let a: [u8; 4] = kani::any();
     let b: [u8; 4] = kani::any();
